@@ -567,11 +567,95 @@ def rule_split_halves(chk, prog):
                 (r.bad if bad else r.ok)(inst, fn.loc(stmt), bad or "")
 
 
+def rule_array_init(chk, prog):
+    from ..rules import arrayinit
+    r = chk.rule("ARRAY-INIT", "every user constructor gives EVERY element of a scalar array member a value: a loop from 0 to a bound that covers the "
+                 "array, stores to constant indices (enumerators resolved), a mem-initialiser, or a fill -- member helpers on `this` and "
+                 "delegating constructors followed; exceptions only via tables/array_init_reviewed.json (an element left out is read as "
+                 "whatever the allocator left there: e.g. a routing penalty that differs from run to run)", floor=20)
+    reviewed = load_table("array_init_reviewed.json")["entries"]
+    for cls, name, bound, ctor, missing in arrayinit.scan(prog):
+        key = "%s::%s@%s" % (cls, name, ctor.key)
+        r.count()
+        if not missing:
+            r.ok(key, ctor.where(), "all %d elements" % bound)
+        elif key in reviewed:
+            r.ok(key, ctor.where(), "reviewed: " + reviewed[key][:100])
+        else:
+            r.bad(key, ctor.where(), "constructor leaves element(s) %s of `%s[%d]` indeterminate" % (missing, name, bound))
+
+
+def rule_of_three(chk, prog):
+    """A class that frees what its members point to must not be copied member-wise."""
+    r = chk.rule("COPY-OWNERSHIP", "every copy construction in the libraries of a class that (itself, through a base class or through a by-value member) "
+                 "frees memory in its destructor goes through a user-written copy constructor -- a defaulted / implicit member-wise copy makes "
+                 "two objects free the same pointers (found: dialect::SepMatrix copied inside Graph's copy constructor although its base "
+                 "cola::CompoundConstraint deletes its _subConstraintInfo)", floor=2)
+    owning = {}
+    for f in prog.all_functions():
+        if f.kind != "dtor" or f.body is None or "/tests/" in f.file:
+            continue
+        for n in f.nodes():
+            if n.get("k") == "CXXDeleteExpr" or (n.get("k") == "CallExpr" and "delete_object" in str(n.get("cname", "")) + str(n)[:0]):
+                owning.setdefault(f.cls, f)
+            elif n.get("k") == "CallExpr" and str(n.get("cname", "")).startswith("std::for_each") and "delete_object" in norm(n):
+                owning.setdefault(f.cls, f)
+
+    def bases(c, seen):
+        out = []
+        for b in (prog.records.get(c) or {}).get("bases", []):
+            b = str(b)
+            if b not in seen:
+                seen.add(b)
+                out.append(b)
+                out += bases(b, seen)
+        return out
+
+    def user_copy_ctor(c):
+        for f in prog.all_functions():
+            if f.kind == "ctor" and f.cls == c and f.tmpl != "pattern" and len(f.params) == 1 and not f.d.get("defaulted") and not f.d.get("implicit"):
+                t = str(f.params[0].get("t", "")).replace(" ", "")
+                if t in ("const" + c.replace(" ", "") + "&", c.replace(" ", "") + "&") and f.body is not None:
+                    return f
+        return None
+    sites = {}
+    for f in prog.all_functions():
+        if f.body is None and not f.d.get("inits"):
+            continue
+        if "/tests/" in f.file or f.tmpl == "pattern":
+            continue
+        roots = ([f.body] if f.body is not None else []) + [i_["expr"] for i_ in f.d.get("inits", []) if i_.get("expr")]
+        for root in roots:
+            for n in walk(root):
+                if n.get("k") == "CXXConstructExpr" and n.get("copy"):
+                    sites.setdefault(str(n.get("cname", "")), []).append((f, n))
+    k = 0
+    for cls, lst in sorted(sites.items()):
+        chain = [cls] + bases(cls, set())
+        own = [c for c in chain if c in owning]
+        rec = prog.records.get(cls) or {}
+        own += [str(fl["t"]).replace("const ", "") for fl in rec.get("fields", []) if str(fl["t"]).replace("const ", "") in owning]
+        if not own:
+            continue
+        k += 1
+        r.count()
+        f0, n0 = lst[0]
+        uc = user_copy_ctor(cls)
+        if uc is not None:
+            r.ok(cls, uc.where(), "copied at %d site(s) through its own copy constructor" % len(lst))
+        else:
+            r.bad(cls, f0.loc(n0), "%s is copied member-wise here (%d site(s)), but %s frees memory in its destructor: both copies free the same "
+                  "pointers" % (cls, len(lst), own[0]))
+    if k < 2:
+        raise AnalysisBroken("COPY-OWNERSHIP: owning classes that are copied not recognised (%d)" % k)
+
+
 def run(chk):
     prog = chk.load()
     cg = CallGraph(prog)
     chk.guard(rule_dtor_drain, chk, prog)
     chk.guard(rule_init, chk, prog)
+    chk.guard(rule_array_init, chk, prog)
     chk.guard(rule_own_dtor, chk, prog, cg)
     chk.guard(rule_del_guard, chk, prog)
     chk.guard(rule_erase_advance, chk, prog)
@@ -580,3 +664,4 @@ def run(chk):
     chk.guard(rule_action_identity, chk, prog)
     chk.guard(rule_element_address, chk, prog)
     chk.guard(rule_split_halves, chk, prog)
+    chk.guard(rule_of_three, chk, prog)
